@@ -6,7 +6,7 @@ sys.path.insert(0, os.path.dirname(os.path.abspath(__file__)))
 import vlib
 vlib.ensure_dirs()
 subprocess.run(["python3", os.path.join(vlib.VERIF, "tools", "gen_cfgs.py")], check=True)
-vlib.build_harness(["mux_sim", "mux_stress", "keepalive_sim", "frame_vec", "socks_vec", "chain_vec", "backoff_vec"])
+vlib.build_harness(["mux_sim", "mux_stress", "keepalive_sim", "frame_vec", "socks_vec", "chain_vec", "backoff_vec", "ws_vec"])
 vlib.build_harness(["frame_vec", "chain_vec"], release=True)
 vlib.build_harness(["tls_matrix", "gate", "retry_sim", "tunnel"], crate=vlib.HARNESS_APP)
 bad = 0
